@@ -19,6 +19,7 @@ struct GSession {
     bool fv_late = false, fv_done = false;
     double fmin = 1e9, fmax = 2e9;
     bool has_unknown = false;
+    long poison_ref = -1;	// unknown parameter named only by a refused standard of this session
 };
 
 struct CGen {
@@ -109,7 +110,7 @@ Plan cal_gen(const std::string &check, const std::string &tier, uint64_t seed, l
 	S.F = (int)rng.range(1, c10 ? 5 : 3);
 	S.ab = rng.chance(0.4);
 	S.fmin = gfmin * (1 + 0.2 * rng.uni()); S.fmax = S.fmin + (gfmax - gfmin) * (0.3 + 0.6 * rng.uni());
-	S.todo.clear(); S.next = 0; S.applies = 0; S.has_unknown = false; S.fv_late = (c10 || c16) && rng.chance(0.2); S.fv_done = !S.fv_late;
+	S.todo.clear(); S.next = 0; S.applies = 0; S.has_unknown = false; S.poison_ref = -1; S.fv_late = (c10 || c16) && rng.chance(0.2); S.fv_done = !S.fv_late;
 	S.name = (int)rng.below(6);
 	bool need_full = cls != W8;
 	auto shape = [&]() { return need_full ? true : rng.chance(0.5); };
@@ -233,6 +234,21 @@ Plan cal_gen(const std::string &check, const std::string &tier, uint64_t seed, l
 		    emit_add(S, S.todo[S.next++]);
 		    // early solve attempts (too few standards reported; retried later)
 		    if (rng.chance(c20 ? 0.5 : 0.1)) { Op so = g.mk("solve", {S.sid}, S.sid); if (faults && rng.chance(0.2)) { Fault f; f.t = "alloc.vna"; f.n = rng.range(1, 60); so.f.push_back(f); } plan.ops.push_back(so); if (c20 && rng.chance(0.2)) plan.ops.push_back(g.mk("solve", {S.sid}, S.sid)); }
+		    if (S.P >= 2 && S.poison_ref < 0 && rng.chance(id == "C11" ? 0.15 : 0.03)) {
+			// a refused full-matrix standard: a fresh unknown parameter in its first cell, a deleted
+			// handle in its last one.  It must add nothing: the unknown stays unsolved and the
+			// session's own standards still determine the calibration.
+			bool neg = rng.chance(0.5);	// (guess on the same side as the value, should the reference resolve to a usable standard after a reload)
+			Op mu = g.mk("mkunknown", {neg ? -3 : -2}, S.sid); mu.d = {neg ? -0.9 : 0.9, 0.05}; plan.ops.push_back(mu);
+			long u = g.nparams++;
+			long d = mkscalar(0.3, 0.1, S.sid);
+			plan.ops.push_back(g.mk("delparam", {d}, S.sid));
+			Op o = g.mk("add", {S.sid, 3, 1, (long)rng.below(2), 1, 2, u, ma, ma, d}, S.sid);
+			if (rng.chance(0.5)) { o.i[8] = d; o.i[9] = ma; }
+			o.d = {1.0};
+			plan.ops.push_back(o);
+			S.poison_ref = u;
+		    }
 		    if (rng.chance(0.03)) {	// a rejected standard in between: bad port
 			Op o = g.mk("add", {S.sid, (long)rng.below(3), 1, 0, rng.chance(0.5) ? 0 : S.P + 1, 1, -1, -2, -1, -1}, S.sid);
 			o.d = {1.0};
@@ -249,6 +265,7 @@ Plan cal_gen(const std::string &check, const std::string &tier, uint64_t seed, l
 	    }
 	    if (S.state == 2) {
 		plan.ops.push_back(g.mk("addcal", {S.sid, S.name}, S.sid)); S.state = 3;
+		if (S.poison_ref >= 0) { Op o = g.mk("getpv", {S.poison_ref, 0, 0}, S.sid); o.d = {S.fmin + (S.fmax - S.fmin) * rng.uni()}; plan.ops.push_back(o); }
 		if (S.has_unknown && unknown_ref >= 0) for (int q = (int)rng.range(1, 3); q > 0; --q) {
 		    Op o = g.mk("getpv", {unknown_ref, 0, 0}, S.sid);
 		    double w = rng.uni();
